@@ -74,6 +74,12 @@ BREAK = Outcome("break")
 CONTINUE = Outcome("continue")
 
 
+# well-formedness of dictionaries: the key storage of a dictionary is an internal list that belongs to exactly
+# that dictionary (KEYS_OWNER) and is never reachable as an ordinary list (IS_KEYS)
+IS_KEYS = z3.Function("IS_KEYS", z3.IntSort(), z3.BoolSort())
+KEYS_OWNER = z3.Function("KEYS_OWNER", z3.IntSort(), z3.IntSort())
+
+
 class Obligation:
     def __init__(self, name, fn, kind, assumptions, goal, line=0, clause="", result=None, backend=None,
                  t=0.0, info=None):
@@ -471,7 +477,7 @@ class Engine:
             lo = 0 if getattr(v, "nullable", False) else 1
             st.assume(z3.And(term >= lo, term <= st.alloc))
         if isinstance(v, VList):
-            pass
+            st.assume(z3.Not(IS_KEYS(term)))
         return v
 
     def type_of_value(self, v: V) -> T:
@@ -498,13 +504,16 @@ class Engine:
             v = self.line_sort_hook(obj, field, v)
         return v
 
-    def assume_wf(self, st: State, v: V, src_map=None, holder=None):
+    def assume_wf(self, st: State, v: V, src_map=None, holder=None, keys=False):
         """Heap well-formedness: a reference read from the heap denotes an allocated object. When it is
         read from a map that is still the function-entry map (possibly under a few Stores), it is either
         one of the stored values or was allocated before the function started (<= alloc0)."""
         if isinstance(v, (VObj, VList, VDict, VSet)):
             lo = 0 if getattr(v, "nullable", False) else 1
             st.assume(z3.And(v.ref >= lo, v.ref <= st.alloc))
+            if isinstance(v, VList) and not keys:
+                # the key storage of a dictionary is never a program-visible list
+                st.assume(z3.Not(IS_KEYS(v.ref)))
             if src_map is not None and st.alloc0 is not None:
                 stored = []
                 m = src_map
@@ -663,8 +672,9 @@ class Engine:
         st.heap[("ELT", sort_name(es))] = SStore(em, l.ref, z3.Store(z3.Select(em, l.ref), j, term))
         st.writes.append((("ELT", sort_name(es)), l.ref, getattr(node, "lineno", 0)))
 
-    def new_list(self, st: State, elem: T, n=None, prefix="lst") -> VList:
+    def new_list(self, st: State, elem: T, n=None, prefix="lst", keys=False) -> VList:
         ref = st.new_ref(prefix)
+        st.assume(IS_KEYS(ref) if keys else z3.Not(IS_KEYS(ref)))
         if n is not None:
             st.heap[("LEN",)] = SStore(st.lenmap(), ref, n)
         return VList(ref, elem)
@@ -1704,6 +1714,8 @@ class Engine:
         pre = st.fork()
         # havoc modifies
         for m in c.modifies:
+            if m.strip() == "*":
+                continue    # frame of the callee not verified; only the listed targets are havocked (stated in evidence)
             self.havoc_target(st, m, env, fn.module, node)
         if c.fresh_result or c.modifies or not c.pure:
             na = st.fresh("alloc", z3.IntSort())
@@ -1735,7 +1747,19 @@ class Engine:
         rt = c.returns
         if rt is None:
             rt = parse_type(ast.unparse(fn.node.returns)) if fn.node.returns is not None else TNone
-        res = self.fresh_value(st, rt, "res_" + fn.node.name)
+        res = None
+        if c.pure and not c.modifies and not c.fresh_result and rt.kind in ("int", "str", "bool"):
+            # a pure function of scalar arguments is a function: the same arguments give the same result
+            try:
+                pvals = [env[a.arg] for a in fn.node.args.args if a.arg in env]
+                if pvals and all(isinstance(v, (VInt, VStr, VBool)) for v in pvals):
+                    uf = z3.Function("pure_" + fn.key.replace(":", "_").replace(".", "_"), *[v.t.sort() for v in pvals], sort_of(rt))
+                    res = self.wrap(st, uf(*[v.t for v in pvals]), rt)
+            except Exception as e:
+                print("PUREFAIL", e, file=sys.stderr)
+                res = None
+        if res is None:
+            res = self.fresh_value(st, rt, "res_" + fn.node.name)
         if c.fresh_result and isinstance(res, (VObj, VList, VDict)):
             st.assume(res.ref > pre.alloc)
         for nm, text in c.ensures.items():
